@@ -288,6 +288,101 @@ def _gen_forb(rng, hps):
     return {"op": "and", "a": atoms[0], "b": atoms[1]}
 
 
+TIGHT_SIZES = [10, 30, 64, 100, 100, 250, 1000]
+
+
+def gen_tight_spec(rng, max_size=1000, children=None):
+    """A *tightly forbidden* space: the forbidden clauses relate pairs of hyperparameters and
+    exclude 90 % - 99.9 % of the box, so that from most members no single-hyperparameter change
+    leads to another member (the allowed set is a thin "diagonal").
+
+    One or two groups of two hyperparameters forced to agree:
+      * two integers of N values with `ForbiddenLessThanRelation` + `ForbiddenGreaterThanRelation`
+        (either written with the arguments in the other order): only a == b is allowed,
+        forbidden fraction 1 - 1/N, N in 10 .. 1000;
+      * two finite hyperparameters of K values (categorical str, ordinal int, small integer
+        range — the two of a group need not be of the same kind) with one conjunction
+        `x == u_i  and  y in (all but v_i)` per value: forbidden fraction 1 - 1/K, K in 12 .. 60;
+    plus conditional children (any kind, default away from the canonical inactive value) hanging
+    on members of the groups — active for one value, a few values, a tail of the range or half of
+    it — and no free hyperparameter (a free one always has an allowed mutation).  Defaults are
+    left to ConfigSpace (mid-range / first choice on both sides: the default configuration is on
+    the diagonal, as ConfigSpace demands)."""
+    hps, conds, forbs = [], [], []
+    n_groups = 1 if rng.random() < 0.7 else 2
+    prefixes = rng.sample(["g", "k", "p", "t"], n_groups)
+    members = []
+    for pre in prefixes:
+        family = rng.choice(["rel", "rel", "rel", "conj"])
+        if family == "rel":
+            # two groups multiply: keep the allowed fraction >= ~1e-3 (ConfigSpace samples by rejection)
+            n = rng.choice([x for x in TIGHT_SIZES if x <= (max_size if n_groups == 1 else min(max_size, 30))])
+            log = rng.random() < 0.15
+            lo = rng.choice([1, 2]) if log else rng.choice([0, 0, -5, 1, 3])
+            a = {"name": pre + "_a", "kind": "int", "lo": lo, "hi": lo + n - 1, "log": log}
+            b = {"name": pre + "_b", "kind": "int", "lo": lo, "hi": lo + n - 1, "log": log}
+            hps += [a, b]
+            first = {"op": "rel", "cmp": "lt", "a": a["name"], "b": b["name"]}
+            second = rng.choice([{"op": "rel", "cmp": "gt", "a": a["name"], "b": b["name"]},
+                                 {"op": "rel", "cmp": "lt", "a": b["name"], "b": a["name"]}])
+            forbs += rng.sample([first, second], 2)
+        else:
+            k = rng.choice([12, 24, 40, 60] if n_groups == 1 else [12, 24])
+
+            def finite(name):
+                kind = rng.choice(["cat", "cat", "ord", "int"])
+                if kind == "cat":
+                    return {"name": name, "kind": "cat", "choices": [f"v{i:02d}" for i in range(k)]}
+                if kind == "ord":
+                    step = rng.choice([1, 2, 5])
+                    return {"name": name, "kind": "ord", "choices": [1 + step * i for i in range(k)]}
+                lo = rng.choice([0, 1, -3])
+                # default on the first value, as for choice lists: the default configuration must
+                # be allowed
+                return {"name": name, "kind": "int", "lo": lo, "hi": lo + k - 1, "log": False, "default": lo}
+
+            a, b = finite(pre + "_x"), finite(pre + "_y")
+            hps += [a, b]
+            va = a["choices"] if a["kind"] != "int" else list(range(a["lo"], a["hi"] + 1))
+            vb = b["choices"] if b["kind"] != "int" else list(range(b["lo"], b["hi"] + 1))
+            for i in range(k):
+                forbs.append({"op": "and", "a": {"op": "eq", "hp": a["name"], "value": va[i]},
+                              "b": {"op": "in", "hp": b["name"], "values": [v for j, v in enumerate(vb) if j != i]}})
+        members += [a, b]
+    n_children = children if children is not None else rng.choice([0, 1, 1, 1, 2])
+    for c in range(n_children):
+        par = rng.choice(members)
+        vals = par["choices"] if par["kind"] != "int" else list(range(par["lo"], par["hi"] + 1))
+        name = rng.choice(["a_", "c_", "z_"]) + f"child{c}"
+        child = with_default(rng, gen_hp(rng, name, ["float", "float_log", "int", "int_log", "cat_str", "ord_int", "ord_mixed"]),
+                             force=rng.random() < 0.6)
+        how = rng.choice(["one", "one", "few", "tail", "half"])
+        if how == "one" or par["kind"] == "cat" and how in ("tail", "half"):
+            cond = {"op": "eq", "parent": par["name"], "value": rng.choice([vals[0], vals[0], vals[-1], rng.choice(vals)])}
+        elif how == "few":
+            cond = {"op": "in", "parent": par["name"], "values": rng.sample(vals, rng.randint(1, 3))}
+        elif how == "tail":
+            cond = {"op": "gt", "parent": par["name"], "value": vals[-max(2, len(vals) // 20)]}
+        else:
+            cond = {"op": rng.choice(["gt", "lt"]), "parent": par["name"], "value": vals[len(vals) // 2]}
+        hps.append(child)
+        conds.append({"child": name, "cond": cond})
+    rng.shuffle(hps)
+    spec = {"hps": hps, "conds": conds, "forbs": forbs,
+            "reads": [rng.sample(["len", "names", "default", "str", "space"], 1) if rng.random() < 0.3 else []
+                      for _ in range(len(hps) + len(conds) + 3)]}
+    build_problem(spec)  # ConfigSpace must accept it (a harness error otherwise)
+    return spec
+
+
+def spec_is_tight(spec):
+    """does the spec relate two hyperparameters by forbidden clauses (relations / conjunctions
+    over whole value lists)?"""
+    return any(f["op"] == "rel" or (f["op"] == "and" and "in" in (f["a"]["op"], f["b"]["op"])
+                                    and max(len(f["a"].get("values", [])), len(f["b"].get("values", []))) >= 8)
+               for f in spec["forbs"])
+
+
 def spec_is_constrained(spec):
     return bool(spec["conds"] or spec["forbs"])
 
@@ -368,6 +463,11 @@ def build_problem(spec):
     def forb(f):
         if f["op"] == "and":
             return CS.ForbiddenAndConjunction(forb(f["a"]), forb(f["b"]))
+        if f["op"] == "rel":
+            # a relation between two hyperparameters: forbidden when `a <cmp> b`
+            cls = {"lt": CS.ForbiddenLessThanRelation, "gt": CS.ForbiddenGreaterThanRelation,
+                   "eq": CS.ForbiddenEqualsRelation}[f["cmp"]]
+            return cls(objs[f["a"]], objs[f["b"]])
         if f["op"] == "in":
             return CS.ForbiddenInClause(objs[f["hp"]], list(f["values"]))
         return CS.ForbiddenEqualsClause(objs[f["hp"]], f["value"])
@@ -423,6 +523,8 @@ def decl_of(spec, problem, surrogate=None, normalize=None):
     def jforb(f):
         if f["op"] == "and":
             return {"op": "and", "a": jforb(f["a"]), "b": jforb(f["b"])}
+        if f["op"] == "rel":
+            return {"op": "rel", "a": pos[f["a"]], "b": pos[f["b"]], "cmp": f["cmp"]}
         if f["op"] == "in":
             return {"op": "in", "p": pos[f["hp"]], "vs": [enc(v) for v in f["values"]]}
         return {"op": "eq", "p": pos[f["hp"]], "v": enc(f["value"])}
@@ -719,6 +821,10 @@ def _run_cell2(args):
         except Exception:
             rec["design_len"] = cell["n_initial"]
     rec.pop("problem", None)
+    # observed, not judged: values handed out as NumPy scalars (np.int64 for a declared int, ...).
+    # The repo's own type tests accept them as "of the declared kind" (np.issubdtype(.., np.integer),
+    # np.str_), so the membership oracle reads them by value — `enc` normalises them
+    rec["numpy_values"] = sum(1 for r in rec["rounds"] for x in r["X"] for v in x if isinstance(v, np.generic))
     # make everything JSON-able / picklable
     for r in rec["rounds"]:
         r["X"] = [[plain(v) for v in x] for x in r["X"]]
@@ -939,6 +1045,9 @@ def shrink_case(cell, spec, script, still_fails, budget=14):
             spec = s2
     if spec != BASE_SPEC and ok(cell, BASE_SPEC, script):
         spec = copy.deepcopy(BASE_SPEC)
+    elif spec_is_tight(spec) and spec != BASE_TIGHT_SPEC and ok(cell, BASE_TIGHT_SPEC, script):
+        # the failure needs a tightly forbidden space, not this particular one
+        spec = copy.deepcopy(BASE_TIGHT_SPEC)
     for h in list(spec["hps"]):
         if len(spec["hps"]) <= 1:
             break
@@ -966,10 +1075,21 @@ def shrink_case(cell, spec, script, still_fails, budget=14):
 def _forb_hps(f):
     if f["op"] == "and":
         return _forb_hps(f["a"]) + _forb_hps(f["b"])
+    if f["op"] == "rel":
+        return [f["a"], f["b"]]
     return [f["hp"]]
 
 
 BASE_SPEC = {"hps": [{"name": "h0", "kind": "float", "lo": 0.0, "hi": 1.0, "log": False}], "conds": [], "forbs": []}
+
+
+# the baseline *tightly forbidden* space: two integers of 100 values forced equal (99 % of the box
+# forbidden) and a float that is active for one value of the first
+BASE_TIGHT_SPEC = {"hps": [{"name": "a", "kind": "int", "lo": 0, "hi": 99, "log": False},
+                           {"name": "b", "kind": "int", "lo": 0, "hi": 99, "log": False},
+                           {"name": "c", "kind": "float", "lo": 0.5, "hi": 2.0, "log": False}],
+                   "conds": [{"child": "c", "cond": {"op": "eq", "parent": "a", "value": 0}}],
+                   "forbs": [{"op": "rel", "cmp": "lt", "a": "a", "b": "b"}, {"op": "rel", "cmp": "gt", "a": "a", "b": "b"}]}
 
 
 def spec_kinds(spec):
@@ -1004,7 +1124,11 @@ def requirements(cell, spec, option_keys=("surrogate", "acq", "strategy", "desig
         for key in option_keys:
             if cell.get(key, base[key]) != base[key]:
                 req["options"][key] = cell[key]
-    if spec != BASE_SPEC:
+    if spec == BASE_TIGHT_SPEC:
+        # the failure survived the substitution of the baseline tightly forbidden space: it needs
+        # a tightly forbidden space (with a condition), not particular kinds of hyperparameters
+        req["tight"] = True
+    elif spec != BASE_SPEC:
         req["kinds"] = sorted(spec_kinds(spec))
     return req
 
@@ -1015,6 +1139,8 @@ def satisfies(cell, spec, req, base=None):
         if cell.get(k, base.get(k, "CBO" if k == "search" else None)) != v:
             return False
     if req["kinds"] and not set(req["kinds"]) <= spec_kinds(spec):
+        return False
+    if req.get("tight") and not spec_is_tight(spec):
         return False
     if req["conditions"] and not spec["conds"]:
         return False
@@ -1027,6 +1153,8 @@ def req_tags(req):
     tags = [f"{k}={v}" for k, v in req["options"].items()]
     if req["kinds"]:
         tags.append("dims=" + "+".join(req["kinds"]))
+    if req.get("tight"):
+        tags.append("space=tightly-forbidden")
     if req["conditions"]:
         tags.append("conditions")
     if req["forbidden"]:
